@@ -28,6 +28,10 @@ def run(ctx) -> None:
     ctx.rule("R-POISSONFLOW", "in NoiseTransform._calculate_new_array the Poisson rate passes a clip at zero "
              "(no negative rates), is data-dependent on both the measured array and the dose, and the returned array "
              "derives from the Poisson draw through casts only (whole, non-negative counts)")
+    ctx.rule("R-ONESTREAM", "within one call of the block function every random generator is constructed once: a "
+             "constructor that sits in a loop / comprehension, or in a nested helper that is called from one, must "
+             "have a seed that varies with the repetition (mentions the loop variable / the helper's parameter); "
+             "re-seeding with the same value per dose or per sample replays the same stream")
     ctx.rule("R-SEEDFLOW", "every random generator in the block function is constructed from a seed that is "
              "data-dependent on self.seeds (no global random state, no unseeded generator when a seed was given), and "
              "BaseMeasurements.poisson_noise forwards seed, samples and the dose to NoiseTransform")
@@ -39,6 +43,56 @@ def run(ctx) -> None:
     f = repo.method(NOISE, "NoiseTransform", "_calculate_new_array")
     df = DataFlow(f.node)
     block_param = f.positional_params[1]
+
+    # ---------------- R-ONESTREAM (decided first: it also looks into nested helper functions)
+    parents: dict[int, ast.AST] = {}
+    for p_ in ast.walk(f.node):
+        for ch in ast.iter_child_nodes(p_):
+            parents[id(ch)] = p_
+
+    def enclosing(node, kinds):
+        out, cur = [], parents.get(id(node))
+        while cur is not None and cur is not f.node:
+            if isinstance(cur, kinds):
+                out.append(cur)
+            cur = parents.get(id(cur))
+        return out
+
+    REPEAT = (ast.For, ast.While, ast.ListComp, ast.GeneratorExp, ast.SetComp, ast.DictComp)
+    SCOPES = (ast.FunctionDef, ast.AsyncFunctionDef, ast.Lambda)
+    n_ctor = 0
+    for c in ast.walk(f.node):
+        if not (isinstance(c, ast.Call) and (call_name(c) or "").split(".")[-1] in RNG_CTORS):
+            continue
+        n_ctor += 1
+        seed_e = c.args[0] if c.args else next((k.value for k in c.keywords if k.arg == "seed"), None)
+        seed_names = {x.id for x in ast.walk(seed_e) if isinstance(x, ast.Name)} if seed_e is not None else set()
+        scopes = enclosing(c, SCOPES)
+        reps = []  # (construct that repeats the constructor, names that vary from one repetition to the next)
+        inner_scope = scopes[0] if scopes else None
+        for r in enclosing(c, REPEAT):
+            if inner_scope is not None and any(x is r for x in enclosing(inner_scope, REPEAT)):
+                continue  # handled through the call sites of the nested function below
+            tg = [r.target] if isinstance(r, ast.For) else [g.target for g in getattr(r, "generators", [])]
+            reps.append((r, {x.id for t in tg for x in ast.walk(t) if isinstance(x, ast.Name)}))
+        for sc in scopes:
+            if isinstance(sc, ast.Lambda):
+                continue
+            a_ = sc.args
+            params = {x.arg for x in a_.posonlyargs + a_.args + a_.kwonlyargs}
+            sites = [k for k in ast.walk(f.node) if isinstance(k, ast.Call) and isinstance(k.func, ast.Name)
+                     and k.func.id == sc.name]
+            looped = [k for k in sites if any(isinstance(x, REPEAT) for x in enclosing(k, REPEAT))]
+            if looped:
+                reps.append((looped[0], params))
+        bad = [(r, vary) for r, vary in reps if not (seed_names & vary)]
+        ctx.check(not bad, "R-ONESTREAM", f"{f.qualname}:rng#{n_ctor - 1} constructed once", f.loc(c),
+                  f"`{norm_text(c)[:50]}` is executed once per call of the block function",
+                  f"`{norm_text(c)[:60]}` is re-constructed with the same seed `{norm_text(seed_e) if seed_e is not None else '-'}`"
+                  f" on every repetition of `{norm_text(bad[0][0])[:70]}`: each repetition draws the identical random "
+                  "stream, so the noise of different doses / samples is correlated (equal doses give identical "
+                  "arrays) instead of independent" if bad else "", key_detail="onestream")
+    ctx.require(n_ctor >= 1, "no random generator constructed in the block function")
 
     # ---------------- R-POISSONFLOW
     draws = [c for c in walk_no_nested(f.node) if isinstance(c, ast.Call) and isinstance(c.func, ast.Attribute)
